@@ -16,7 +16,8 @@ EXPLANATION = (
     "arithmetic occurs (binary operators, powers, elementary functions) - only value-preserving operations (solve, subs, doit, "
     "evalf, simplify..., Quantity, convert_to*, float/int) and the two documented post-operations abs and ceiling; P3 each "
     "substitution `S: p` of a guarded parameter p replaces a symbol S of the guard's dimension; P4 the symbol solved for has "
-    "the dimension declared by validate_output. The numerical statement itself (residual ~ 0 for all magnitudes and units) is "
+    "the dimension declared by validate_output; P6 (E4) where a vector law is offered solved for different unknowns the forms are "
+    "mutual inverses, decided by abstract evaluation with generic vectors and exact normal form. The numerical statement itself (residual ~ 0 for all magnitudes and units) is "
     "NOT decided: it quantifies over SymPy's solve/subs/evaluation of run-time values.")
 ASSUMPTIONS = [
     "sympy.solve / subs / doit / evalf / simplify and Quantity(...) preserve the value of the expression they are given",
@@ -212,8 +213,113 @@ def check(run: Run) -> None:
                                             solved=str(td), declared=str(od))
             if len(run.samples) < 10:
                 run.sample({"function": g.qual, "returns": [norm(r.ast, 80) for r in rets], "law_names": sorted(strict)[:6]})
+    p6_mutual_inverses(run, w)
     run.notes["calculate_functions"] = ncalc
     run.floor("P1", ncalc, 400, "calculate_* functions")
     p3 = run.rules["P3"]
     if p3["obligations"] < 0.9 * (p3["obligations"] + p3["undecided"]):
         raise AnalysisError(f"C02/P3: only {p3['obligations']} of {p3['obligations'] + p3['undecided']} substitution entries typed")
+
+
+# --------------------------------------------------------------------------------------------- P6: mutual inverses (E4)
+
+AR_MOD = "symplyphysics.core.vectors.arithmetics"
+
+
+def _target(fn_name: str):
+    for suf in ("_law", "_definition"):
+        if fn_name.endswith(suf):
+            return fn_name[:-len(suf)]
+    return None
+
+
+def p6_mutual_inverses(run: Run, w: World) -> None:
+    """Where a vector law is offered solved for different unknowns, the forms are mutual inverses: F(g := G(f, rest), rest) = f,
+    decided with generic 3-vectors / scalars by abstract evaluation of the law functions (and of core/vectors/arithmetics.py,
+    which they call) and exact normal form."""
+    from ..alg import T, var, num, op, normalize, same
+    from ..pyreader import PyReader, VVal, Sys, Raised
+    run.rule("P6", "vector laws offered for different unknowns are mutual inverses: F(g := G(f, rest), rest) = f for generic vectors and scalars")
+    ar = run.src.need(AR_MOD)
+    cart = Sys("cs0", "CARTESIAN")
+    npairs = 0
+    for m in run.src.catalogue():
+        fns = [s for s in m.tree.body if isinstance(s, ast.FunctionDef) and _target(s.name) and not s.name.startswith("_")]
+        if len(fns) < 2:
+            continue
+        env_mod = w.env(m.name)
+
+        class LawReader(PyReader):
+            def global_value(self, n, env_mod=env_mod):
+                d = dotted(n)
+                if d is None:
+                    return None
+                if isinstance(n, ast.Name):
+                    v = env_mod.names.get(n.id)
+                    if v is not None and v.kind in ("expr", "any") and v.extra != "unit":
+                        return var(n.id)
+                    return None
+                v = Interp(w, env_mod).ev(n)
+                if v.kind == "expr" and v.extra == "quantity":
+                    return var(d.replace(".", "_"))
+                return None
+
+        merged = ast.Module(body=[s for s in ar.tree.body] + [s for s in m.tree.body if isinstance(s, (ast.FunctionDef, ast.ImportFrom))], type_ignores=[])
+        R = LawReader(merged, where=m.name)
+
+        def generic(pname: str, annot):
+            base = pname.rstrip("_")
+            is_vec = annot is not None and "Vector" in norm(annot)
+            return VVal([var(f"{base}{i}") for i in range(3)], cart) if is_vec else var(base)
+
+        for F in fns:
+            for G in fns:
+                if F is G:
+                    continue
+                f, g = _target(F.name), _target(G.name)
+                fparams = {a.arg: a.annotation for a in F.args.args}
+                gparams = {a.arg: a.annotation for a in G.args.args}
+                if f"{g}_" not in fparams:
+                    continue
+                # value of quantity f as G sees it
+                if f"{f}_" in gparams:
+                    fval = generic(f"{f}_", gparams[f"{f}_"])
+                elif f in env_mod.names and env_mod.names[f].kind in ("expr", "any"):
+                    fval = var(f)
+                else:
+                    continue
+                where = f"{m.rel}:{F.lineno} {F.name}({g}_ := {G.name}(...))"
+                values = {}
+                for p, a in list(gparams.items()) + list(fparams.items()):
+                    values.setdefault(p, generic(p, a))
+                if f"{f}_" in gparams:
+                    values[f"{f}_"] = fval
+                npairs += 1
+                try:
+                    gres = R.call(G.name, [values[p] for p in gparams])
+                    fargs = [gres if p == f"{g}_" else values[p] for p in fparams]
+                    res = R.call(F.name, fargs)
+                    if isinstance(fval, VVal):
+                        if not isinstance(res, VVal):
+                            run.skip("P6", where, "result kind differs")
+                            continue
+                        a_, b_ = list(res.components) + [num(0)] * (3 - len(res.components)), fval.components
+                        equal = all(same(normalize(x), normalize(y)) for x, y in zip(a_, b_))
+                    else:
+                        if isinstance(res, VVal):
+                            run.skip("P6", where, "result kind differs")
+                            continue
+                        equal = same(normalize(res), normalize(fval))
+                except Raised as r:
+                    run.skip("P6", where, f"abstract evaluation ends in raise {r.exc}")
+                    continue
+                except (AnalysisError, ZeroDivisionError) as e:
+                    run.skip("P6", where, f"outside the decidable class: {str(e)[:90]}")
+                    continue
+                run.ob("P6", f"{m.name}:{F.name}<-{G.name}")
+                if not equal:
+                    run.violate("P6", f"{m.name}:{F.name}<-{G.name}", m, F,
+                                f"{F.name} and {G.name} are offered as forms of one law solved for `{f}` and `{g}`, but {F.name}({g}_ := {G.name}(...)) does not give back `{f}`")
+                elif len([s for s in run.samples if isinstance(s, dict) and s.get("rule") == "P6"]) < 3:
+                    run.sample({"rule": "P6", "module": m.name, "composition": f"{F.name}({g}_ := {G.name}(...)) = {f}"})
+    run.notes["p6_pairs_examined"] = npairs
